@@ -364,6 +364,9 @@ func runC06body(c *mon.Ctx) {
 				if j%3 == 0 {
 					D = (rng.Uint32() >> 16) << 16
 				}
+				if j%5 == 1 {
+					D = uint32(1) << uint(1+(b+j)%31) // a single bit of the discrete logarithm: y^2 generates a 2-power subgroup exactly
+				}
 				if x := c17xFromY2(c17target(D&^1, rng)); x != nil {
 					c06compressed(c, be32(x), "y2-dlog-structured", rng)
 					if yL, _, ok := ref.YFromX(x); ok {
